@@ -18,7 +18,7 @@ RULE = (
     "leading / interior empty frames, some frames > 127 bytes so that length prefixes are multi-byte); for each stream "
     "EVERY cut offset k in [0, len] is enumerated (for the rare stream > 3000 bytes: every offset within 8 bytes of a frame "
     "boundary or length prefix and every 251st in between) x source {BytesIO, non-seekable short-reading raw ending in EOF, the same "
-    "raw source and a BufferedReader over it ending in an exception (connection reset)} x {flat, grouped} x "
+    "raw source and a BufferedReader over it ending in an exception (connection reset)} x {flat, grouped} (every cut under a 20 s deadline: the parser must end or raise) x "
     "generic (and rdflib flat for RDF 1.1 content). Items are collected until StopIteration or any Exception. Oracle: "
     "(i) the items are a prefix of the sequence the stream denotes according to the reference decoder R (never a foreign or "
     "reordered item; for grouped: sink j == the statements R attributes to frame j), (ii) at least the statements of all frames lying entirely inside data[:k] were yielded. "
@@ -42,6 +42,22 @@ def case_strategy(draw):
 
 
 def body(case, acc):
+    from vlib.harness import Hang
+
+    try:
+        return _body(case, acc)
+    except Hang:
+        return Violation("C10:hang", f"a parse call on a truncated stream neither ended nor raised within {PER_CUT_LIMIT:.0f} s "
+                         f"(cut offset {_LAST_CUT.get('k')})", {**case, "k": _LAST_CUT.get("k")})
+
+
+PER_CUT_LIMIT = 20.0
+_LAST_CUT = {}
+
+
+def _body(case, acc):
+    from vlib.harness import deadline
+
     data, delimited, rdflib_ok = scen.source_bytes(case["src"])
     if not data or not delimited:
         return None
@@ -105,6 +121,16 @@ def body(case, acc):
                     labels.append("cut_inside_frame")
             acc.case({"stream": sh, "k": k, "of": len(data)}, bool(labels), labels)
         cut = data[:k]
+        _LAST_CUT["k"] = k
+        with deadline(PER_CUT_LIMIT):
+            v = _one_cut(case, data, k, cut, full, full_grouped, ends, need, need_stmts, complete, rdflib_ok, ref)
+        if v is not None:
+            return v
+    return None
+
+
+def _one_cut(case, data, k, cut, full, full_grouped, ends, need, need_stmts, complete, rdflib_ok, ref):
+    if True:
         for integ in full:
             for srckind in ("bytesio", "raw", "raw_reset", "buffered_reset"):
                 if srckind == "bytesio":
